@@ -738,13 +738,6 @@ int mpq_EGlpNumReadStrXc (mpq_t var,
 			 * */
 			if (a_exp || n_dig == 0)
 			{
-				/* as for the exponent below: the writers format a number into a line
-				 * buffer of ILL_namebufsize characters */
-				if (n_dig > 9999)
-				{
-					n_char = 0;
-					goto DONE;
-				}
 				if (!a_dot)
 					mpz_mul_ui (mpq_denref (den[cn]), mpq_denref (den[cn]), (unsigned long int)10);
 				mpz_mul_ui (mpq_numref (den[cn]), mpq_numref (den[cn]), (unsigned long int)10);
